@@ -10,6 +10,10 @@ import ZnVerif.Ops.C06
 import ZnVerif.Ops.C19
 import ZnVerif.Ops.C14
 import ZnVerif.Ops.C11
+import ZnVerif.Ops.C10
+import ZnVerif.Ops.C15
+import ZnVerif.Ops.C13
+import ZnVerif.Ops.Lex
 
 open ZnVerif.Ops
 
@@ -22,7 +26,11 @@ def handlers : List (String → List String → Option String) := [
   C06.handle,
   C19.handle,
   C14.handle,
-  C11.handle
+  C11.handle,
+  Lex.handle,
+  C13.handle,
+  C15.handle,
+  C10.handle
 ]
 
 def dispatch (op : String) (args : List String) : String :=
